@@ -45,6 +45,9 @@ def run(ctx, rep):
     r82(ctx, rep)
     r84(ctx, rep)
     r85(ctx, rep)
+    rep.rule("R8.6", "every nanmin/nanmax in the selection routine is guarded by a test that the same operand has a defined entry (otherwise an IndexError escapes)")
+    from .c03 import check_nan_reductions
+    check_nan_reductions(ctx, rep, "R8.6")
 
 
 def r81(ctx, rep):
